@@ -24,7 +24,7 @@ func init() {
 }
 
 func C16Params(thorough bool) harness.GenParams {
-	p := harness.GenParams{MaxItems: 6, MaxOps: 8, Reopen: true, MaxPages: 96}
+	p := harness.GenParams{MaxItems: 6, MaxOps: 8, Reopen: true, MaxPages: 96, Overflow: true, AbortHeavy: true}
 	if thorough {
 		p.MaxItems = 12
 	}
@@ -48,12 +48,39 @@ func RunC16(p *harness.Program, thorough bool) Result {
 	var shots []shot
 	pickEvery := int(aux(p, 0)%3) + 1
 	n := 0
-	o := harness.RunOpts{CheckContent: true, TrackCommits: true, Drain: true}
-	o.AfterCommit = func(r *harness.Runner, rec *harness.CommitRec) {
-		states[rec.TxID] = r.C.Clone()
+	o := harness.RunOpts{CheckContent: true, TrackCommits: true, Drain: true, NoFinalClose: true}
+	r, v := harness.NewRunner(p, o)
+	if v != nil {
+		return Result{V: v}
+	}
+	states[r.InitTxID] = harness.NewMState()
+	states[r.InitTxID-1] = harness.NewMState()
+	seen := 0
+	for i := range p.Items {
+		if v = r.SafeRunItem(i, &p.Items[i]); v != nil {
+			return Result{V: v, Counters: r.Counters}
+		}
+		committed := false
+		for ; seen < len(r.Commits); seen++ {
+			if rec := &r.Commits[seen]; rec.OK && rec.State != nil {
+				states[rec.TxID] = rec.State
+				for _, id := range rec.AltTxIDs {
+					states[id] = rec.State
+				}
+				committed = true
+			}
+		}
+		// Images are taken right after successful commits only ("for every committed history"): that is
+		// the moment at which the older header is a complete fallback by design. The pages of the older
+		// state that the newest commit freed may be re-used as soon as the next transaction flushes, and
+		// a rollback truncates to the newest state only - so at later points the older header is not a
+		// usable fallback any more (a limitation of the format, not asserted; see DESIGN.md 0.4).
+		if !committed {
+			continue
+		}
 		n++
-		if n%pickEvery != 0 {
-			return
+		if n%pickEvery != 0 || r.F == nil {
+			continue
 		}
 		cp := map[uint64]*harness.MState{}
 		for k, v := range states {
@@ -64,13 +91,7 @@ func RunC16(p *harness.Program, thorough bool) Result {
 			shots = shots[1:]
 		}
 	}
-	r, v := harness.NewRunner(p, o)
-	if v != nil {
-		return Result{V: v}
-	}
-	states[r.InitTxID] = harness.NewMState()
-	states[r.InitTxID-1] = harness.NewMState()
-	if v = r.Run(); v != nil {
+	if v = r.Finish(); v != nil {
 		return Result{V: v, Counters: r.Counters}
 	}
 	c := r.Counters
